@@ -6,6 +6,7 @@ import (
 	"crypto/sha256"
 	"encoding/hex"
 	"fmt"
+	"os"
 	"strings"
 	"time"
 )
@@ -78,6 +79,9 @@ func (it item) prefix() ([]uint16, []Point) {
 	p[it.pos] = it.alt
 	return p, it.parent.trace[:it.pos+1]
 }
+
+// dumpFile (VERIF_DUMP): debugging aid, every first occurrence of an outcome is appended to this file.
+var dumpFile = os.Getenv("VERIF_DUMP")
 
 // ObsHash hashes an observation log.
 func ObsHash(obs []string, f *Failure) string {
@@ -162,6 +166,12 @@ func Explore(cfg ExploreConfig, body func()) *Stats {
 			}
 			if res.Blocked > 0 || res.Marked {
 				st.Blocked++
+			}
+			if st.Outcomes[oh] == 0 && dumpFile != "" {
+				if f, err := os.OpenFile(dumpFile, os.O_APPEND|os.O_CREATE|os.O_WRONLY, 0o644); err == nil {
+					fmt.Fprintf(f, "choices=%v obs=%s\n", choicesOf(res.Trace), strings.Join(res.Obs, " | "))
+					f.Close()
+				}
 			}
 			st.Outcomes[oh]++
 			for k, v := range res.Counters {
